@@ -159,9 +159,14 @@ def post_c11nostd(work, reports, ctx):
             if x == y:
                 continue
             fx, fy = x.split('\t'), y.split('\t')
-            which = 'Span::round' if fx[8:9] != fy[8:9] else 'Span::total' if fx[9:10] != fy[9:10] else 'inputs'
+            if len(fx) == 8:  # the SignedDuration float conversions (C12)
+                names = ['index', 'input', 'try_from_secs_f64', 'try_from_secs_f32', 'as_secs_f64', 'as_secs_f32', 'mul_f64', 'div_f64']
+                which = next((names[k] for k in range(8) if fx[k] != fy[k]), '?')
+                cls = f'std-and-no-std-builds-disagree/SignedDuration::{which}'
+            else:
+                which = 'Span::round' if fx[8:9] != fy[8:9] else 'Span::total' if fx[9:10] != fy[9:10] else 'inputs'
+                cls = f'std-and-no-std-builds-disagree/{which}[{fx[7] if len(fx) > 7 else "?"}]'
             mism += 1
-            cls = f'std-and-no-std-builds-disagree/{which}[{fx[7] if len(fx) > 7 else "?"}]'
             if cls in viols:
                 viols[cls]['count'] += 1
             else:
@@ -170,7 +175,7 @@ def post_c11nostd(work, reports, ctx):
             'violations_total': mism, 'violations': list(viols.values()), 'inconclusive': inconclusive, 'notes': []}
 
 
-POSTS = {'c05diff': post_c05diff, 'c18diff': post_c18diff, 'c11nostd': post_c11nostd}
+POSTS = {'c05diff': post_c05diff, 'c18diff': post_c18diff, 'c11nostd': post_c11nostd, 'c12nostd': post_c11nostd}
 
 COMMON_ASSUME = [
     'reference models in /verif/harness/src/{cal,tzref,arith}.rs are the trusted base; cal is cross-checked odometer vs Hinnant over the full range at start-up',
@@ -290,18 +295,19 @@ PROPS['C08'] = dict(
 
 PROPS['C12'] = dict(
     sub='c12',
-    quick=[S('rel'), S('dbg')],
-    thorough=[S('rel'), S('dbg')],
+    post=['c12nostd'],
+    quick=[S('rel'), S('dbg'), S('nstd'), S('nstd_std')],
+    thorough=[S('rel'), S('dbg'), S('nstd'), S('nstd_std')],
     rule='Span: seeded sequences of 1-4 fallible setter calls (unit, value in {+-limit, +-(limit-1), +-(limit+1), 0, +-1, i64::MIN/MAX, seeded}) observed after every step through all getters, signum/is_*, negate, unary minus, abs, '
          'fieldwise equality, conversion to SignedDuration/std Duration, then checked_mul by {0,+-1,+-2,3,10,i64::MIN/MAX, seeded, the multiplier that lands a unit on its limit} against a (sign, magnitudes[10]) model with the documented sign rule; every unit alone at its boundary values x every second unit (enumerated). '
          'SignedDuration: seeded (a, b, k:i32) with a,b biased to MIN/MAX/0/day multiples against i128 nanosecond arithmetic for 30 observers (views, add/sub/mul/div/neg/abs, saturating forms, conversions, float views); unit constructors at their overflow boundaries; '
          'floats: NaN, +-inf, subnormals, +-2^63 and neighbours, half-nanosecond ties, powers of two, seeded bit patterns, compared with the exact rational value of the float. '
          'distinct_nontrivial = distinct multi-setter sequences + distinct (a,b,k) triples (every third) + distinct float bit patterns',
-    floors={'quick': {'evaluations': 500000000, 'distinct_nontrivial': 10000000}, 'thorough': {'evaluations': 5000000000, 'distinct_nontrivial': 30000000}},
+    floors={'quick': {'evaluations': 500000000, 'distinct_nontrivial': 10000000, 'std_nostd_results_compared': 9000000}, 'thorough': {'evaluations': 5000000000, 'distinct_nontrivial': 30000000, 'std_nostd_results_compared': 100000000}},
     assumptions=COMMON_ASSUME + ['try_from_secs_f32 is allowed the precision of an f32 significand (its documentation shows the loss); f64 conversions must be within 1 ns of the exact rational value; mul_f64/div_f64/as_secs_f64 within 1e-14 relative'],
     level_text='Reference-model monitoring: every mutation and observer of Span and SignedDuration is executed on seeded limit-biased inputs in both build modes and compared with a (sign, magnitudes) model resp. exact i128 nanosecond arithmetic, including exactly-when overflow is reported and sign coherence of every produced value.',
     level_note='Trusted base: the 40-line span model and i128 arithmetic in harness/src/c12.rs; exact decomposition of IEEE floats. The documented panics of the infallible constructors count as reported overflow.',
-    technique='reference-model monitor (unit-vector span model, i128 nanoseconds, exact float decomposition) over seeded limit-biased inputs; release + debug-assertion builds',
+    technique='reference-model monitor (unit-vector span model, i128 nanoseconds, exact float decomposition) over seeded limit-biased inputs; release + debug-assertion builds; offline differential of the float conversions between builds of jiff with and without its std feature',
     design_ref='DESIGN.md section 4, C12',
 )
 
@@ -428,7 +434,8 @@ PROPS['C11'] = dict(
          'the days-are-24-hours marker, and no reference; spans with 1-4 units of one sign from tiny to thousands of days (and limit-biased ones); increments from the divisors of the next unit plus {0,-1,the unit size, non-divisors}; all 9 modes; sometimes units the reference does not permit. '
          'Oracle (end-point conservation, jiff\'s own separately-monitored addition as the evaluation function): T = greedy balanced truncation of r..r+span found by binary search with checked_add only, lo = r+T, hi = r+(T + sign*inc*smallest); r + rounded must be the end chosen from the exact integers (x-lo, hi-lo) by the mode (half-even parity on the grid that is rounded); '
          'plus: no unit above largest / below smallest, smallest a multiple of the increment, sign kept. total(unit) = greedy whole units + (x-lo)/(hi-lo) within 1e-12 relative; compare == ordering of r+a, r+b; to_duration == exact distance; r+(a+b) == (r+a)+b for civil/uniform references; calendar units without a reference must be refused. '
-         'distinct_nontrivial = distinct rounding cases whose r+span is strictly inside its window',
+         'distinct_nontrivial = distinct rounding cases whose r+span is strictly inside its window. '
+         'Stages nstd/nstd_std (harness-nostd): 300,000 (quick) / 4,000,000 (thorough) seeded round+total cases per shard relative to civil dates, civil datetimes and POSIX-zoned datetimes, biased to spans that are exact multiples of the increment, run against jiff built without std (its own floor/ceil/round/trunc in src/util/libm.rs) and with std; the two result logs must be identical line by line',
     floors={'quick': {'rounds_ok': 1500000, 'zones': 60, 'zoned_cases': 400000, 'std_nostd_results_compared': 9000000}, 'thorough': {'rounds_ok': 40000000, 'zones': 300, 'std_nostd_results_compared': 100000000}},
     assumptions=COMMON_ASSUME + TZ_ASSUME[2:3] + [
         'no end-point verdict when the reference day of month is 29-31 and months/years are involved (clamping), when a window end lands in a gap/fold, or when a calendar smallest unit is rounded in increments > 1 with larger units present (Temporal rejects that configuration; jiff\'s result is on no single grid)',
@@ -436,7 +443,7 @@ PROPS['C11'] = dict(
         'errors are permitted when r+span or the result exceed the datetime range or the span unit limits'],
     level_text='Metamorphic end-point monitoring of Span::round/total/compare/checked_add/to_duration in both build modes: every result is mapped back onto the time line with the (independently monitored) datetime addition and compared with the neighbour selected by exact integer arithmetic from a greedy truncation computed by binary search, independently of jiff\'s nudge/bubble code.',
     level_note='Trusted base: jiff\'s checked_add (policed by C06/C08), arith.rs, the greedy search and pick_endpoint in harness/src/c11.rs; tzref.rs only to decide where no verdict is given.',
-    technique='metamorphic end-point conservation monitor with an independent greedy-search oracle; release + debug-assertion builds',
+    technique='metamorphic end-point conservation monitor with an independent greedy-search oracle; release + debug-assertion builds; offline differential of recorded results between builds of jiff with and without its std feature',
     design_ref='DESIGN.md section 4, C11',
 )
 
